@@ -6,6 +6,14 @@ def E(name, src, model=None, quick=None, thorough=None, **kw):
     return d
 
 PROPS = {
+    "C03": dict(
+        lean_props=["H4.Props.C03"],
+        engines=[
+            E("sd", "e_sd.c", model="sd", quick=dict(cases=1500), thorough=dict(cases=30000, seeds=8, chunk=300)),
+        ],
+        trusted_base=["DFKconvert is exercised but not modelled here (C06)", "non-HDF netCDF/CDF paths of the same functions are out of scope"],
+        assumptions=["fixed-size variables in the placement tie (record variables are covered by the implementation oracle only)"],
+    ),
     "C05": dict(
         lean_props=["H4.Props.C05"],
         engines=[
